@@ -20,7 +20,7 @@ P = {
     "C07": (True, "atomic-RMW dataflow + panic-edge ledger", "Static rule discharge: single-RMW discipline on the shared position, update before gate, saturating length arithmetic, fraction clamp, no unaudited panic edge in the position/length API.", "3/C07"),
     "C08": (True, "lock-order/join graph acyclicity over lock classes", "Static rule discharge: lock+join graph acyclic, no guard across blocking waits, stop protocol shape, weak-only ticker captures, no guard in public signatures. 'Promptly' as a time bound is not decided.", "3/C08"),
     "C09": (True, "MIR dominance (zero cases, update guard) + who-may-write / overwrite-on-all-paths (reset) + source-to-sink dataflow (time-based weights)", "PARTIAL - structural skeleton only. Static rule discharge of the clauses whose truth is in the shape of the code: eta is rate-derived only on edges where the bar is unfinished, the length known and the rate compared non-zero, and zero only on the complementary edges; duration = elapsed + eta on its live path; reset overwrites every history-carrying estimator field from constants/now, estimator fields are written by new/record/reset only, reset_eta/reset/backwards seek all reach it; every smoothing weight is a function of one Instant difference (now - prev_time decay, now - start_time normalisation) and the reported rate is re-weighted for the stall and divided by the total weight; every rate store in record is dominated by edges implying steps and time strictly advanced; no unaudited panic edge. The numeric laws (finite, non-negative, bounded by the largest observed rate, monotone decay, equal to the true rate for steady progress) are NOT decided: they are laws over f64 values and update histories that no sound static argument in reach bounds.", "3/C09"),
-    "C10": (True, "panic-edge ledger (totality)", "Static rule discharge of totality only: no unaudited panic edge reachable from with_template/template. Rendering fidelity is NOT decided.", "3/C10"),
+    "C10": (True, "panic-edge ledger (totality)", "Static rule discharge of totality: no unaudited panic edge reachable from with_template/template. Of the fidelity half only two structural necessary conditions (rows are the split('\\n') segments of the rendered text, never those of a lossy splitter such as lines(); every placeholder starts from an empty scratch buffer). The rest of rendering fidelity (string equality over the grammar) is NOT decided.", "3/C10"),
     "C11": (True, "dispatch-table arm-effects vs documented keys", "Static rule discharge: each documented key has an arm that formats the expected accessor with the expected formatter; the shared scratch buffer is fresh for every placeholder; tracker write/tick/reset lifecycle and ordering; final tick string when finished. Not text equality.", "3/C11"),
     "C12": (True, "unit (qualifier) inference Cols/Bytes", "Static rule discharge of unit discipline (columns vs bytes never mixed; no column value as byte offset), padding structure per alignment, every width placeholder always goes through the padded field, wide_msg is a truncating rest-of-line field. Rendered width for all strings is NOT decided; the truncation defect is a listed known finding.", "3/C12"),
     "C13": (True, "dataflow + comparison-fact (dominating edge) analysis + operand polarity over format_bar / BarDisplay", "PARTIAL - structural clauses only. Static rule discharge: the cell count is the integer quotient width / char_width and the raw width is used for nothing else; filled = truncation of fraction * cells (no rounding call); the partial-cell flag is true exactly under fill > 0 and filled < cells (both strict, nothing else); the partial cell exists iff the flag is set, its index derives from the configured characters and is never increased; background = cells - filled - flag (polarity of each operand) with non-wrapping subtraction, drawn with the last configured character; BarDisplay writes chars[0] filled times, then chars[cur] once, then the background, in that order; format_bar is given ProgressState::fraction(), which is clamped to [0,1]; wide_bar's width is the terminal width minus the measured rest of the line and is never enlarged. NOT decided: off-by-one cell counts / partial-cell indices caused by f32 rounding at particular (fraction, width, charset) triples, monotonicity in the position, exactness up to 2^24 - these need the values.", "3/C13"),
